@@ -249,7 +249,23 @@ def run_check(prop, tier, seed, replay=None, only=None, jobs=None, verbose=False
     _MOD = mod
     repo.load()
     if hasattr(mod, "setup"):
-        mod.setup(tier)
+        try:
+            mod.setup(tier)
+        except Exception:
+            # setup runs the library under test (reference tables, pristine results); on the unchanged library it does
+            # not raise.  If it does, the library misbehaved before a single case could be judged: that is reported as
+            # a violation (with the traceback as the replay record), never as a silent harness failure.
+            import traceback
+            tb = traceback.format_exc()
+            rdir = os.path.join(VERIF, "replays", prop)
+            os.makedirs(rdir, exist_ok=True)
+            path = os.path.join(rdir, "setup_exception.json")
+            with open(path, "w") as fh:
+                json.dump({"property": prop, "case_id": "__setup__", "tier": tier, "full_id": "no_exception|__setup__",
+                           "failure": {"clause": "no_exception", "sub": None, "detail": tb[-3000:]}}, fh, indent=1)
+            print("VIOLATION property=%s replay=%s" % (prop, path))
+            print("  case=__setup__ clause=no_exception\n  detail=%s" % tb[-1500:])
+            return 1
 
     if replay is not None:
         try:
